@@ -172,8 +172,19 @@ func (ctx *Ctx) GenVC(fc *FuncContract) (res *FuncResult) {
 			// instances of callee contracts used as spec functions are hypotheses of this obligation
 			reach := And(append([]Term{exit.reach}, penv.assumes...)...)
 			penv.assumes = nil
+			bound := ""
+			if bc, ok := fc.Bounded[en.Label]; ok {
+				benv := fr.baseEnv(fr.entry)
+				benv.old = fr.entry
+				bt, err := benv.EvalBool(bc.E)
+				if err != nil {
+					return fmt.Sprintf("bounded %s does not resolve: %v", en.Label, err)
+				}
+				reach = And(reach, bt)
+				bound = bc.Src
+			}
 			vc.addObl(&Obligation{Name: "ensures:" + en.Label + sfx, Kind: "ensures", Reach: reach, Cond: t, Taint: exit.taint,
-				Pos: ctx.prog.Fset.Position(fn.Pos()), Descr: en.Src, Spec: en.E})
+				Pos: ctx.prog.Fset.Position(fn.Pos()), Descr: en.Src, Spec: en.E, Bound: bound})
 		}
 		if fc.Appends != nil {
 			ctx.appendsObligations(vc, fr, fc, exit, penv, sfx)
